@@ -195,6 +195,13 @@ func (c *Ctx) calleeName(call *ssa.CallCommon) string {
 // ---------------------------------------------------------------------------
 
 func (c *Ctx) buildQuery(st *State, negGoal Term) string {
+	return c.buildQueryOpt(st, negGoal, false)
+}
+
+// buildQueryOpt: for satisfiability (cover) queries the engine-generated quantified
+// background facts (allocation order, frames of fresh objects; binders named q!N) are
+// left out: they are true in every execution and only slow down model finding.
+func (c *Ctx) buildQueryOpt(st *State, negGoal Term, cover bool) string {
 	var b strings.Builder
 	b.WriteString(c.Reg.Prelude())
 	for _, d := range st.decls.slice() {
@@ -202,6 +209,9 @@ func (c *Ctx) buildQuery(st *State, negGoal Term) string {
 		b.WriteByte('\n')
 	}
 	for _, a := range st.pc.slice() {
+		if cover && strings.HasPrefix(a, "(forall ((q!") {
+			continue
+		}
 		b.WriteString("(assert ")
 		b.WriteString(a)
 		b.WriteString(")\n")
@@ -265,7 +275,7 @@ func (c *Ctx) emit(st *State, fr *Frame, ins ssa.Instruction, kind, sub string, 
 		Trace: shortTrace(st.trace),
 	}
 	if cover {
-		o.Query = c.buildQuery(st, goal)
+		o.Query = c.buildQueryOpt(st, goal, true)
 	} else {
 		o.Query = c.buildQuery(st, Not(goal))
 	}
@@ -788,8 +798,103 @@ func (c *Ctx) checkPost(o outcome, fn *ssa.Function, ct *Contract, fr0 *Frame) {
 			c.emit(st, nil, nil, "post", label+" outside-known-finding", Or(t, rt), e.Text+"  ||  [known finding] "+resid, false)
 		}
 	}
-	if ct.Opts["releases_all"] != "" || ct.Opts["nolocks"] != "" {
-		// no lock may be held at return
+	if ct.HasModifies && !ct.Extern {
+		c.checkFrame(st, fn, ct, env)
+	}
+}
+
+// checkFrame: a function with an explicit modifies clause may change, among the objects
+// that existed when it was called, only the listed ones.
+func (c *Ctx) checkFrame(st *State, fn *ssa.Function, ct *Contract, env *specEnv) {
+	allowed := map[string][]Term{} // family -> bases that may change
+	anyFam := map[string]bool{}
+	saved := env.post
+	env.post = false
+	defer func() { env.post = saved }()
+	for _, m := range ct.Modifies {
+		kind, rest := splitWord(m)
+		switch kind {
+		case "heap", "everything":
+			return
+		case "fam":
+			anyFam[strings.TrimSpace(rest)] = true
+			continue
+		case "ghost", "chan", "guarded", "fields", "elems":
+			// ghost state and type-wide items: not object-level
+			if kind == "fields" || kind == "elems" {
+				return
+			}
+			continue
+		case "slice", "map":
+			e, err := ParseSpecExpr(rest)
+			if err != nil {
+				continue
+			}
+			v, err := c.evalSpec(env, e)
+			if err != nil {
+				c.Errorf("CONTRACT-ERROR %s: modifies %q: %v", ct.File, m, err)
+				continue
+			}
+			if kind == "slice" {
+				if sl, ok := v.typ.Underlying().(*types.Slice); ok {
+					fam, _ := c.famElem(sl.Elem())
+					allowed[fam] = append(allowed[fam], T(SInt, "(sl_arr %s)", v.t.S))
+				}
+			} else if mt, ok := v.typ.Underlying().(*types.Map); ok {
+				d, _ := c.famMapDom(mt)
+				vv, _ := c.famMapVal(mt)
+				for _, f := range []string{d, vv, famMapLen} {
+					allowed[f] = append(allowed[f], v.t)
+				}
+			}
+			continue
+		}
+		e, err := ParseSpecExpr(m)
+		if err != nil || e.Op != "sel" {
+			continue
+		}
+		obj, err := c.evalSpec(env, e.Args[0])
+		if err != nil {
+			continue
+		}
+		stT := deref(obj.typ)
+		if sty, ok := stT.Underlying().(*types.Struct); ok {
+			for i := 0; i < sty.NumFields(); i++ {
+				if sty.Field(i).Name() == e.Text {
+					fam, _ := c.famField(stT, i)
+					allowed[fam] = append(allowed[fam], obj.t)
+				}
+			}
+		}
+	}
+	ws := c.funcSummary(fn, 0)
+	if ws.top {
+		c.emit(st, nil, nil, "frame", "unknown-effects", False, "function with a modifies clause calls code whose effects are unknown", false)
+		return
+	}
+	entryAlloc := c.cur.entryAlloc
+	if entryAlloc.S == "" {
+		return
+	}
+	for _, fam := range sortedKeys(ws.fams) {
+		if anyFam[fam] || strings.HasPrefix(fam, "G|") || strings.HasPrefix(fam, "IT|") {
+			continue
+		}
+		if fam == famAlloc || fam == famHeld || fam == famWg || fam == famChLen || fam == famChClosed || fam == famChCap || fam == famCtxDone {
+			continue
+		}
+		cur, ok1 := st.arrays[fam]
+		entry, ok2 := st.entry[fam]
+		if !ok1 || !ok2 || cur.S == entry.S {
+			continue
+		}
+		q := c.Reg.Fresh("q")
+		conds := []string{"(select " + entryAlloc.S + " " + q + ")"}
+		for _, b := range allowed[fam] {
+			conds = append(conds, "(not (= "+q+" "+b.S+"))")
+		}
+		goal := T(SBool, "(forall ((%s Int)) (=> (and %s) (= (select %s %s) (select %s %s))))", q, strings.Join(conds, " "), cur.S, q, entry.S, q)
+		c.emit(st, nil, nil, "frame", famShort(fam), goal, "only the objects listed in the modifies clause change in "+famShort(fam), false)
 	}
 }
 
@@ -867,7 +972,15 @@ func (c *Ctx) initialState(fn *ssa.Function) *State {
 	c.Errors = c.Errors[:savedErrs]
 	c.MaxInline, c.PathBudget = savedInline, savedBudget
 	if run.aborted != "" || len(outs) != 1 {
-		c.Notef("package %s: initialiser not executed symbolically (%s, %d outcomes): globals unknown", pkg.Pkg.Path(), run.aborted, len(outs))
+		extra := ""
+		for i, o := range outs {
+			tr := o.st.trace.slice()
+			if len(tr) > 12 {
+				tr = tr[len(tr)-12:]
+			}
+			extra += fmt.Sprintf(" [outcome %d: %s]", i, strings.Join(tr, ">"))
+		}
+		c.Notef("package %s: initialiser not executed symbolically (%s, %d outcomes): globals unknown%s", pkg.Pkg.Path(), run.aborted, len(outs), extra)
 		return NewState()
 	}
 	res := outs[0].st
